@@ -731,7 +731,10 @@ def replay(path):
     B.clean_work(PROP + '_replay')
     fails = recheck(obj['check'], obj['budget'], obj.get('probes'))
     hit = [f for f in fails if f['law'] == obj.get('law')] or fails
-    print(json.dumps({'failing': [{'law': f['law'], 'signature': f.get('sig'), 'detail': f['detail']} for f in hit]}, indent=1))
+    known = {x.get('signature') for x in load_known_findings(PROP) if x.get('status') == 'finding'}
+    print(json.dumps({'failing': [{'law': f['law'], 'signature': f.get('sig'), 'known_finding': f.get('sig') in known,
+                                   'detail': f['detail']} for f in hit]}, indent=1))
+    hit = [f for f in hit if f.get('sig') not in known]     # a listed finding is reported, it does not fail the replay
     if hit:
         print(f'VIOLATION property=C16 replay={path}')
         return 1
